@@ -38,6 +38,7 @@ pub struct MeshStats {
     pub volume: f64,
     pub area: f64,
     pub first_dup: Option<(usize, usize)>,
+    pub dup_list: Vec<(usize, usize)>,
 }
 
 pub fn mesh_stats(m: &Mesh) -> MeshStats {
@@ -61,9 +62,11 @@ pub fn mesh_stats(m: &Mesh) -> MeshStats {
     let mut dup = 0;
     let mut unmatched = 0;
     let mut first_dup = None;
+    let mut dup_list = vec![];
     for (e, n) in &edges {
         if *n > 1 {
             dup += 1;
+            dup_list.push(*e);
             if first_dup.is_none() {
                 first_dup = Some(*e);
             }
@@ -85,6 +88,7 @@ pub fn mesh_stats(m: &Mesh) -> MeshStats {
         volume,
         area,
         first_dup,
+        dup_list,
     }
 }
 
@@ -186,9 +190,14 @@ impl RefGrid {
     /// than `cover` from every sample of the same set whose distance to the
     /// other set exceeds `r`: features or gaps thinner than about 2r
     pub fn thin_samples(&self, r: f32, cover: f32) -> usize {
-        let mut total = 0;
+        self.thin_mask(r, cover).iter().filter(|b| **b).count()
+    }
+
+    /// Mask of the samples counted by `thin_samples`
+    pub fn thin_mask(&self, r: f32, cover: f32) -> Vec<bool> {
         let inside = self.inside.clone();
         let outside: Vec<bool> = inside.iter().map(|b| !*b).collect();
+        let mut mask = vec![false; inside.len()];
         for (set, other) in [(&inside, &outside), (&outside, &inside)] {
             if !set.iter().any(|b| *b) {
                 continue;
@@ -198,15 +207,43 @@ impl RefGrid {
                 .map(|i| set[i] && d_other[i] > r * r)
                 .collect();
             if !core.iter().any(|b| *b) {
-                total += set.iter().filter(|b| **b).count();
+                for i in 0..set.len() {
+                    if set[i] {
+                        mask[i] = true;
+                    }
+                }
                 continue;
             }
             let d_core = self.edt(&core);
-            total += (0..set.len())
-                .filter(|i| set[*i] && d_core[*i] > cover * cover)
-                .count();
+            for i in 0..set.len() {
+                if set[i] && d_core[i] > cover * cover {
+                    mask[i] = true;
+                }
+            }
         }
-        total
+        mask
+    }
+
+    /// Is any masked sample within `radius` samples of the world point `q`?
+    pub fn near_mask(&self, mask: &[bool], q: [f32; 3], radius: f32) -> bool {
+        let n = self.n as i32;
+        let idx = |v: f32| ((v + 1.0) * self.n as f32 / 2.0 - 0.5).round() as i32;
+        let (ci, cj, ck) = (idx(q[0]), idx(q[1]), idx(q[2]));
+        let r = radius.ceil() as i32;
+        for k in (ck - r)..=(ck + r) {
+            for j in (cj - r)..=(cj + r) {
+                for i in (ci - r)..=(ci + r) {
+                    if i < 0 || j < 0 || k < 0 || i >= n || j >= n || k >= n {
+                        continue;
+                    }
+                    let d2 = ((i - ci).pow(2) + (j - cj).pow(2) + (k - ck).pow(2)) as f32;
+                    if d2 <= radius * radius && mask[((k * n + j) * n + i) as usize] {
+                        return true;
+                    }
+                }
+            }
+        }
+        false
     }
 
     /// Number of sample faces between an inside and an outside sample
@@ -289,11 +326,149 @@ fn run<F: MathFunction + RenderHints + Clone>(case: &Case, cx: &mut Cx) -> Check
     );
     if st.dup_edges > 0 || st.unmatched_edges > 0 {
         let e = st.first_dup;
-        let key = if st.dup_edges > 0 {
-            "F8-duplicate-directed-edge"
-        } else {
-            "open-edge"
-        };
+        // A pinched edge (directed edge used twice, mesh still closed) next to
+        // a feature or gap thinner than about two cells is open finding F8;
+        // anywhere else, or an open edge, is a violation.
+        let mut key = if st.unmatched_edges > 0 { "open-edge" } else { "duplicate-directed-edge" };
+        if st.unmatched_edges == 0 {
+            // F8 is the classic dual-contouring pinch: two face-adjacent
+            // finest-level cells share a face whose corner signs alternate and
+            // each of them has a single vertex for all four face edges.  It is
+            // recognised from the field alone: an ambiguous face of the finest
+            // lattice within one cell of the pinched edge.
+            let inv = w2m.try_inverse().unwrap();
+            let cells = 1i32 << case.depth;
+            let hw = 2.0 / cells as f32;
+            let mut vals = vec![];
+            let mut inside_at = |i: i32, j: i32, k: i32| -> bool {
+                let q = Point3::new(-1.0 + i as f32 * hw, -1.0 + j as f32 * hw, -1.0 + k as f32 * hw);
+                let p = w2m.transform_point(&q);
+                flat.eval_xyz(p.x, p.y, p.z, &mut vals);
+                vals[ri] < 0.0
+            };
+            let mut all_ambiguous = true;
+            for (a, b) in st.dup_list.iter() {
+                // the third vertex of every triangle on the pinched edge is an
+                // edge-intersection point, i.e. it lies on the lattice edge of
+                // the cells involved (the cell vertices themselves may have
+                // escaped their cells, finding F9)
+                let mut anchors: Vec<nalgebra::Vector3<f32>> = vec![];
+                for t in &mesh.triangles {
+                    let idx = [t.x, t.y, t.z];
+                    if idx.contains(a) && idx.contains(b) {
+                        for i in idx {
+                            if i != *a && i != *b {
+                                anchors.push(inv.transform_point(&Point3::from(mesh.vertices[i])).coords);
+                            }
+                        }
+                    }
+                }
+                // Natural F8: exactly four triangles on the pinched edge, whose
+                // edge-intersection vertices sit on the four edges of ONE
+                // lattice face (side h * 2^level) with alternating corner signs
+                let mut found = false;
+                if anchors.len() == 4 {
+                    'lv: for level in 0..1 {
+                        let s_cells = (1i32 << level) as f32; // face side in finest cells
+                        // cell coordinates of the anchors
+                        let pts: Vec<[f32; 3]> = anchors
+                            .iter()
+                            .map(|m| [(m.x + 1.0) / hw, (m.y + 1.0) / hw, (m.z + 1.0) / hw])
+                            .collect();
+                        for axis in 0..3 {
+                            // all anchors on one lattice plane normal to `axis`
+                            let plane = pts[0][axis];
+                            if (plane - plane.round()).abs() > 1e-3
+                                || pts.iter().any(|p| (p[axis] - plane).abs() > 1e-3)
+                            {
+                                continue;
+                            }
+                            let (u, v) = ((axis + 1) % 3, (axis + 2) % 3);
+                            let umin = pts.iter().map(|p| p[u]).fold(f32::INFINITY, f32::min);
+                            let vmin = pts.iter().map(|p| p[v]).fold(f32::INFINITY, f32::min);
+                            let u0 = ((umin + 1e-3) / s_cells).floor() * s_cells;
+                            let v0 = ((vmin + 1e-3) / s_cells).floor() * s_cells;
+                            // each anchor on an edge of the square [u0, u0+s] x [v0, v0+s]
+                            let on_edge = |p: &[f32; 3]| {
+                                let (pu, pv) = (p[u] - u0, p[v] - v0);
+                                let e = 1e-3;
+                                let inside = pu >= -e && pu <= s_cells + e && pv >= -e && pv <= s_cells + e;
+                                inside
+                                    && (pu.abs() < e || (pu - s_cells).abs() < e || pv.abs() < e || (pv - s_cells).abs() < e)
+                            };
+                            if !pts.iter().all(on_edge) {
+                                continue;
+                            }
+                            let mut corner = |du: f32, dv: f32| {
+                                let mut c = [0i32; 3];
+                                c[axis] = plane.round() as i32;
+                                c[u] = (u0 + du).round() as i32;
+                                c[v] = (v0 + dv).round() as i32;
+                                inside_at(c[0], c[1], c[2])
+                            };
+                            let sg = [corner(0.0, 0.0), corner(s_cells, 0.0), corner(s_cells, s_cells), corner(0.0, s_cells)];
+                            if sg[0] == sg[2] && sg[1] == sg[3] && sg[0] != sg[1] {
+                                // the table gives a cell one vertex per connected
+                                // group of inside corners; the pinch is the known
+                                // limitation only if, in BOTH finest cells sharing
+                                // the face, the two inside corners of the face
+                                // belong to the same group
+                                let mut both = true;
+                                for side in [-1i32, 0] {
+                                    let mut base = [0i32; 3];
+                                    base[axis] = plane.round() as i32 + side;
+                                    base[u] = u0.round() as i32;
+                                    base[v] = v0.round() as i32;
+                                    let mut ins = [false; 8];
+                                    for c in 0..8usize {
+                                        ins[c] = inside_at(
+                                            base[0] + (c & 1) as i32,
+                                            base[1] + ((c >> 1) & 1) as i32,
+                                            base[2] + ((c >> 2) & 1) as i32,
+                                        );
+                                    }
+                                    // inside corners of the shared face
+                                    let face_bit = if side == -1 { 1usize << axis } else { 0 };
+                                    let on_face: Vec<usize> = (0..8)
+                                        .filter(|c| (c & (1 << axis)) == face_bit && ins[*c])
+                                        .collect();
+                                    if on_face.len() != 2 {
+                                        both = false;
+                                        break;
+                                    }
+                                    // flood fill over cube edges between inside corners
+                                    let mut seen = [false; 8];
+                                    let mut stack = vec![on_face[0]];
+                                    while let Some(c) = stack.pop() {
+                                        if seen[c] {
+                                            continue;
+                                        }
+                                        seen[c] = true;
+                                        for ax in 0..3 {
+                                            let n = c ^ (1 << ax);
+                                            if ins[n] && !seen[n] {
+                                                stack.push(n);
+                                            }
+                                        }
+                                    }
+                                    if !seen[on_face[1]] {
+                                        both = false;
+                                    }
+                                }
+                                if both {
+                                    found = true;
+                                    break 'lv;
+                                }
+                            }
+                        }
+                    }
+                }
+                all_ambiguous &= found;
+            }
+            if all_ambiguous {
+                key = "F8-duplicate-directed-edge";
+            }
+        }
         let msg = format!(
             "{} directed edges occur more than once, {} edges lack a matching reverse ({} triangles, depth {}); first duplicate {:?} = {:?}",
             st.dup_edges,
@@ -528,3 +703,61 @@ impl Prop for P {
 
 #[allow(dead_code)]
 fn _unused(_: gens::DagParams) {}
+
+/// Debug helper: prints the neighbourhood of pinched edges
+pub fn debug(case: &Case) {
+    let mut ctx = Context::new();
+    let root = case.shape.build(&mut ctx);
+    let shape = Shape::<VmFunction>::new(&ctx, root).unwrap();
+    let w2m = world_to_model(&case.xform);
+    let settings = Settings {
+        depth: case.depth,
+        world_to_model: w2m,
+        threads: None,
+        cancel: Default::default(),
+    };
+    let bound = shape.try_into().ok().unwrap();
+    let octree = Octree::build::<VmFunction>(&bound, &settings).unwrap();
+    let mesh = octree.walk_dual();
+    let st = mesh_stats(&mesh);
+    let inv = w2m.try_inverse().unwrap();
+    let cells = (1u32 << case.depth) as f32;
+    let cell_of = |v: Vector3<f32>| {
+        let q = inv.transform_point(&Point3::from(v));
+        [(q.x + 1.0) * cells / 2.0, (q.y + 1.0) * cells / 2.0, (q.z + 1.0) * cells / 2.0]
+    };
+    println!("depth {} triangles {} dup {:?}", case.depth, mesh.triangles.len(), st.dup_list);
+    for (a, b) in &st.dup_list {
+        println!("edge {a}->{b}: {:?} -> {:?} (cell coords)", cell_of(mesh.vertices[*a]), cell_of(mesh.vertices[*b]));
+        for t in &mesh.triangles {
+            let idx = [t.x, t.y, t.z];
+            if idx.contains(a) && idx.contains(b) {
+                let third = idx.iter().find(|i| *i != a && *i != b).unwrap();
+                println!("   tri {:?}  third {third} at {:?}", idx, cell_of(mesh.vertices[*third]));
+            }
+        }
+    }
+    // lattice signs around the first pinch
+    if let Some((a, b)) = st.dup_list.first() {
+        let flat = Flat::new(&ctx, &[root]);
+        let ri = flat.index[&root];
+        let ca = cell_of(mesh.vertices[*a]);
+        let cb = cell_of(mesh.vertices[*b]);
+        let lo: Vec<i32> = (0..3).map(|i| ca[i].min(cb[i]).floor() as i32 - 1).collect();
+        let hi: Vec<i32> = (0..3).map(|i| ca[i].max(cb[i]).ceil() as i32 + 1).collect();
+        let mut vals = vec![];
+        for k in lo[2]..=hi[2] {
+            println!(" z = {k}");
+            for j in (lo[1]..=hi[1]).rev() {
+                let mut line = format!("  y={j:3} ");
+                for i in lo[0]..=hi[0] {
+                    let q = Point3::new(-1.0 + i as f32 * 2.0 / cells, -1.0 + j as f32 * 2.0 / cells, -1.0 + k as f32 * 2.0 / cells);
+                    let p = w2m.transform_point(&q);
+                    flat.eval_xyz(p.x, p.y, p.z, &mut vals);
+                    line += if vals[ri] < 0.0 { "#" } else { "." };
+                }
+                println!("{line}   (x from {})", lo[0]);
+            }
+        }
+    }
+}
